@@ -89,7 +89,7 @@ def diffNode (o : Opts) (merge : Bool) (a b : Json) (p : Path) : Diff :=
           subs ++ (if rem.isEmpty && add.isEmpty then []
                    else [{ path := p ++ [.set], remove := rem, add := add }])
       | _ =>
-        if merge then [{ merge := true, path := p, add := b'.nodeList }]
+        if merge then [{ merge := true, path := p, add := [b'] }]
         else [{ path := p, remove := (Json.arr .raw xs).nodeList, add := b'.nodeList }]
     | .mset =>
       match b' with
@@ -110,7 +110,7 @@ def diffNode (o : Opts) (merge : Bool) (a b : Json) (p : Path) : Diff :=
           if rem.isEmpty && add.isEmpty then []
           else [{ path := p ++ [.mset], remove := rem, add := add }]
       | _ =>
-        if merge then [{ merge := true, path := p, add := b'.nodeList }]
+        if merge then [{ merge := true, path := p, add := [b'] }]
         else [{ path := p, remove := (Json.arr .raw xs).nodeList, add := b'.nodeList }]
     | _ =>
       match b' with
